@@ -8,7 +8,8 @@ for s in $IDS; do
   prop=${s%%-*}
   checks=$(python3 -c "import json;print(' '.join(json.load(open('/verif/seeded/$s/meta.json')).get('run_checks',['$prop'])))")
   cd /repo && git diff --quiet || { echo "/repo dirty"; exit 2; }
-  git apply /verif/seeded/$s/patch.diff || { echo "$s: patch does not apply"; continue; }
+  { git apply /verif/seeded/$s/patch.diff 2>/dev/null || git apply -3 /verif/seeded/$s/patch.diff 2>/dev/null; } || { echo "$s: patch does not apply"; git checkout -q -- .; git reset -q; continue; }
+  git reset -q
   res=""
   for c in $checks; do
     out=$(/verif/check $c quick 2>&1)
